@@ -4,15 +4,25 @@ import os, re, json
 import vlib
 
 
-def unusual(d, max_asm_len=3):
+def unusual(d, max_asm_len=3, scale_sizes=(1000, 150000)):
     """runs TLC on spec/Unusual.tla; returns (x components dict, list of asm programs (lists of fragments))"""
     xo = os.path.join(d, "xu.ndjson"); ao = os.path.join(d, "au.ndjson")
     cfg = os.path.join(d, "Unusual.cfg")
-    open(cfg, "w").write("INIT Init\nNEXT Next\nCONSTANTS\n  MaxAsmLen = %d\nCHECK_DEADLOCK FALSE\n" % max_asm_len)
+    open(cfg, "w").write("INIT Init\nNEXT Next\nCONSTANTS\n  MaxAsmLen = %d\n  ScaleSizes = {%s}\nCHECK_DEADLOCK FALSE\n" % (max_asm_len, ", ".join(str(n) for n in scale_sizes)))
     vlib.tlc("Unusual", cfg=cfg, workers=1, env={"XOUT": xo, "AOUT": ao}, heap="6g", timeout=3000)
     comp = vlib.read_ndjson(xo)[0]
     asm = [json.loads(l) for l in open(ao)]
     return comp, asm
+
+
+def scale_cases(sc):
+    """Unusual!Scale(..) -> cases: pre . rep^n . mid . postrep^n . post with "@" the repetition index"""
+    out = []
+    for sh in sc['shapes']:
+        for n in sc['sizes']:
+            rep = lambda t: "".join(t.replace('@', str(i)) for i in range(1, n + 1)) if '@' in t else t * n
+            out.append({'id': 'scale:%s:%d' % (sh['id'], n), 'src': sh['pre'] + rep(sh['rep']) + sh['mid'] + rep(sh['postrep']) + sh['post'], 'fam': 'scale'})
+    return out
 
 
 def render_x(p):
@@ -144,7 +154,11 @@ def valgrind_batch(exe, runner, cases, d, tag, flags):
 def exe_sample(tool, cases, d, ext, tag):
     """the built EXECUTABLE on a sample of inputs (its main() has handlers of its own): returns [(case, what)] for runs that are
     neither Accept (status 0, output file, nothing on stderr) nor Reject (status 1..255, diagnostic, no output file)"""
-    import subprocess, shutil
+    import subprocess, shutil, resource
+    def limits():              # the usual 8 MiB stack whatever the invoking shell has
+        hard = resource.getrlimit(resource.RLIMIT_STACK)[1]
+        want = 8 << 20
+        resource.setrlimit(resource.RLIMIT_STACK, (want if hard == resource.RLIM_INFINITY or hard >= want else hard, hard))
     bad = []
     wd = os.path.join(d, tag + ".exe"); os.makedirs(wd, exist_ok=True)
     for c in cases:
@@ -153,7 +167,7 @@ def exe_sample(tool, cases, d, ext, tag):
         if os.path.exists(outp):
             os.remove(outp)
         try:
-            p = subprocess.run([tool, src, "-o", outp], cwd=wd, stdin=subprocess.DEVNULL, stdout=subprocess.PIPE, stderr=subprocess.PIPE, timeout=60)
+            p = subprocess.run([tool, src, "-o", outp], cwd=wd, stdin=subprocess.DEVNULL, stdout=subprocess.PIPE, stderr=subprocess.PIPE, timeout=60, preexec_fn=limits)
         except subprocess.TimeoutExpired:
             bad.append((c, "did not terminate within 60 s"))
             if sum(1 for _, w in bad if w.startswith("did not terminate")) >= 3:
